@@ -509,7 +509,7 @@ def h_lh_helper(sym):
     the device supports is on its own page, nothing else is written, the done callback comes once with the right verdict, and
     reading everything gives back exactly the supported base stations with the written content."""
     what = sym.B['what']
-    cand = [0, 1, 3, 15]
+    cand = list(sym.B.get('cand', (0, 1, 3, 15)))
     chosen = [i for i in cand if sbool(sym, f'bs{i}_in_subset')]
     # base stations whose pages the device serves: a prefix (what firmware builds differ in), or everything but 1 and 2 (a read
     # that fails for another reason in the middle of the sweep)
@@ -531,7 +531,8 @@ def h_lh_helper(sym):
                 vals[0] = f32(sym, 'x')
             objs[i] = mk_calib(vals)
             objs[i].uid = 1000 + i
-        objs[i].valid = True
+        # a not-valid object is how a base station is removed from a configured device: it has to be written like any other
+        objs[i].valid = sbool(sym, f'bs{i}_valid')
 
     def serve_all():
         n = 0
@@ -548,8 +549,8 @@ def h_lh_helper(sym):
     assert sorted(a for (a, d, f) in h.writes) == [base + i * 0x100 for i in chosen], 'pages written: one per object of the subset'
     for (a, d, f) in h.writes:
         i = (a - base) // 0x100
-        ref = struct.pack('<12f?', *(geo_floats(objs[i]) + [True])) if what == 'geo' else \
-            struct.pack('<14fL?', *(calib_floats(objs[i]) + [objs[i].uid, True]))
+        ref = struct.pack('<12f?', *(geo_floats(objs[i]) + [objs[i].valid])) if what == 'geo' else \
+            struct.pack('<14fL?', *(calib_floats(objs[i]) + [objs[i].uid, objs[i].valid]))
         assert all_equal(d, ref), 'page content of a written object'
     rd = Calls()
     (helper.read_all_geos if what == 'geo' else helper.read_all_calibs)(rd)
@@ -562,7 +563,9 @@ def h_lh_helper(sym):
             got, exp = (geo_floats(res[i]), geo_floats(objs[i])) if what == 'geo' else (calib_floats(res[i]), calib_floats(objs[i]))
             ref = struct.unpack('<%df' % len(exp), struct.pack('<%df' % len(exp), *exp))
             assert all_equal(got, ref), ('object read back differs from the one written', i)
-            assert res[i].valid
+            assert res[i].valid == objs[i].valid, 'valid flag read back differs from the one written'
+            if not objs[i].valid:
+                sym.goal('not-valid-object-written')
             if what != 'geo':
                 assert res[i].uid == objs[i].uid
     # a second operation is accepted afterwards (no "not finished" record left)
@@ -1000,11 +1003,11 @@ HARNESSES = [
     Harness('lh_geo', h_lh_geo, goals=('valid', 'not-valid'), timeout=(250, 900), smt_timeout=1.5),
     Harness('lh_calib', h_lh_calib, goals=('valid', 'not-valid'), timeout=(250, 900), smt_timeout=1.5),
     Harness('lh_flags', h_lh_flags, timeout=(250, 900)),
-    Harness('lh_helper[geo]', h_lh_helper, quick=dict(what='geo'), timeout=(400, 1200), smt_timeout=1.5,
-            goals=('subset-written', 'empty-subset', 'unsupported-in-subset'),
-            note='LighthouseMemHelper: any subset of base stations 0, 1, 3, 15 on a device serving the first 2, the first 4, all 16, or all but 1 and 2'),
-    Harness('lh_helper[calib]', h_lh_helper, quick=dict(what='calib'), timeout=(400, 1200), smt_timeout=1.5,
-            goals=('subset-written', 'empty-subset', 'unsupported-in-subset')),
+    Harness('lh_helper[geo]', h_lh_helper, quick=dict(what='geo', cand=(0, 1, 15)), thorough=dict(what='geo'), timeout=(400, 1200), smt_timeout=1.5,
+            goals=('subset-written', 'empty-subset', 'unsupported-in-subset', 'not-valid-object-written'),
+            note='LighthouseMemHelper: any subset of base stations 0, 1, 3, 15 (three of them in the quick tier), each valid or not valid, on a device serving the first 2, the first 4, all 16, or all but 1 and 2'),
+    Harness('lh_helper[calib]', h_lh_helper, quick=dict(what='calib', cand=(1, 3, 15)), thorough=dict(what='calib'), timeout=(400, 1200), smt_timeout=1.5,
+            goals=('subset-written', 'empty-subset', 'unsupported-in-subset', 'not-valid-object-written')),
     Harness('lh_file', h_lh_file, quick=dict(geo_ids=(0, 1, 15), calib_ids=(0, 15)),
             thorough=dict(geo_ids=(0, 1, 7, 15), calib_ids=(0, 8, 15)), goals=('both', 'invalid-skipped', 'empty'), timeout=(250, 1500)),
     Harness('lh_file_envelope', h_lh_file_envelope, goals=('accepted', 'refused')),
